@@ -6,10 +6,12 @@
 package daemon
 
 import (
+	"errors"
 	"net"
 	"os"
 	"os/signal"
 	"syscall"
+	"time"
 
 	"src.elv.sh/pkg/daemon/internal/api"
 	"src.elv.sh/pkg/logutil"
@@ -93,6 +95,14 @@ func Serve(sockpath, dbpath string, opts ServeOpts) int {
 		for {
 			conn, err := listener.Accept()
 			if err != nil {
+				if errors.Is(err, syscall.EMFILE) || errors.Is(err, syscall.ENFILE) {
+					// Out of file descriptors; this will pass when a client
+					// disconnects. Giving up would leave new clients waiting
+					// forever in the listen backlog.
+					logger.Println("could not accept:", err, "- retrying")
+					time.Sleep(100 * time.Millisecond)
+					continue
+				}
 				listenErrCh <- err
 				close(listenErrCh)
 				return
@@ -127,6 +137,9 @@ func Serve(sockpath, dbpath string, opts ServeOpts) int {
 		close(opts.Ready)
 	}
 
+	// The accept goroutine closes listenErrCh after sending its error; stop
+	// selecting on it after the first receive, or the loop below would spin.
+	acceptErrCh := listenErrCh
 loop:
 	for {
 		select {
@@ -134,7 +147,8 @@ loop:
 			logger.Printf("received signal %v", sig)
 			interrupt()
 			break loop
-		case err := <-listenErrCh:
+		case err := <-acceptErrCh:
+			acceptErrCh = nil
 			logger.Println("could not listen:", err)
 			if len(conns) == 0 {
 				logger.Println("exiting since there are no clients")
